@@ -152,6 +152,15 @@ DeepTrees == {<<El("ul", <<>>, Written(<<CRepeat("a", P("rows"))>> \o d1),
                  ab \in {P("a"), P("lst")},
                  ct \in {Alt(<<P("b"), P("c")>>), P("v"), S(<<Sub(P("repeat/a/index")), Sub(P("repeat/b/index")), Sub(P("repeat/c/index")), Var("gv")>>)}}
 
+\* nested repeats that REUSE the variable name: after the inner loop (and in later outer iterations) `x` and
+\* repeat/x/... describe the outer loop again
+SameNameTrees == {<<El("ul", <<>>, <<CRepeat("x", P("rows"))>>,
+                      <<El("li", <<>>, <<CRepeat("x", inner), CContent(Alt(<<P("repeat/x/letter"), S(<<Lit("-")>>)>>), FALSE)>>, <<TextN("i")>>),
+                        El("b", <<>>, <<CContent(after, FALSE)>>, <<TextN("t")>>), TextN(";")>>), NestSib>> :
+                    inner \in {P("x"), P("lst"), P("el"), P("one")},
+                    after \in {P("repeat/x/number"), P("repeat/x/end"), Exists(P("repeat/x/number")), Alt(<<P("repeat/x/index"), S(<<Lit("lost")>>)>>),
+                               S(<<Sub(P("repeat/x/letter")), Lit("/"), Sub(P("repeat/x/length"))>>)}}
+
 \* ---- family metal ---------------------------------------------------------------------------------------------------
 MacroEl(mtal, stal) ==
     El("div", <<At("class", "m")>>, Written(<<CDefMacro("m1")>> \o mtal),
@@ -227,7 +236,7 @@ DocVariants == 0..3
 \* built).  Set families (expr, void, deep, metalx, doc) are small sets of trees: the descriptor carries the tree.
 DocTrees == DocRawText \cup (IF Quick THEN DocTreesSmall ELSE DocTreesSmall \cup DocTreesLarge)
 SetFams == {"expr", "void", "deep", "metalx", "doc"}
-TreesOf(f) == CASE f = "expr" -> ExprTrees [] f = "void" -> VoidTrees [] f = "deep" -> DeepTrees
+TreesOf(f) == CASE f = "expr" -> ExprTrees [] f = "void" -> VoidTrees [] f = "deep" -> DeepTrees \cup SameNameTrees
                 [] f = "metalx" -> MetalExtra [] f = "doc" -> DocTrees [] OTHER -> {<<>>}
 Dims(f) ==
     CASE f = "one"   -> <<Sq(Opt({Define1a, Define1b})), Sq(CondOpts1), Sq(RepeatOpts1), Sq(ContentOpts1), Sq(AttrOpts1), Sq(OmitOpts1)>>
